@@ -300,9 +300,14 @@ def parse_driver(out):
                 for kv in m.group(6).split():
                     k, _, v = kv.rpartition("=")
                     st["hist"][k] = int(v)
-        elif l.startswith(("DIFF ", "ORACLE-FAIL ", "BAD ")):
-            if len(st["messages"]) < 200:
-                st["messages"].append(l)
+        elif l.startswith("ORACLE-FAIL "):
+            # keep (a bounded prefix of) every oracle failure: known findings are filtered later by signature,
+            # and a different violation must not be lost behind many known ones
+            if len(st["messages"]) < 50000:
+                st["messages"].append(l[:600])
+        elif l.startswith(("DIFF ", "BAD ")):
+            if sum(1 for m in st["messages"] if not m.startswith("ORACLE-FAIL")) < 300:
+                st["messages"].append(l[:600])
     return st
 
 
